@@ -39,8 +39,10 @@ TArrive == IsEvent("arrive") /\ Arrive(E.c, IpVal(E.ip), E.entry)
 TReg == IsEvent("pip.reg") /\ Register(E.c) /\ ipOf[E.c] = E.ip /\ perIP'[E.ip] = E.n
 TUnreg == IsEvent("pip.unreg") /\ (UnregisterOver(E.c) \/ UnregisterMain(E.c) \/ UnregisterHj(E.c))
             /\ ipOf[E.c] = E.ip /\ perIP'[E.ip] = E.n
-TWrite == IsEvent("conn.write") /\ \/ FirstWrite(E.c, E.code)
-                                   \/ ServedWriteOk(E.c, E.code) /\ UNCHANGED vars
+TWrite == IsEvent("conn.write") /\ \/ E.code # -1 /\ FirstWrite(E.c, E.code)
+                                   \/ E.code # -1 /\ ServedWriteOk(E.c, E.code) /\ UNCHANGED vars
+                                   \/ E.code = -1 /\ FirstWriteAny(E.c)
+                                   \/ E.code = -1 /\ pc[E.c] \notin {"rej429", "rej503"} /\ UNCHANGED vars
 TClose == IsEvent("conn.close") /\ (RawCloseMain(E.c) \/ RawCloseHj(E.c))
 TOpenInc == IsEvent("srv.open.inc") /\ (OpenIncS(E.c) \/ OpenIncSC(E.c))
 TOpenDec == IsEvent("srv.open.dec") /\ (OpenDecFail(E.c) \/ OpenDec(E.c))
